@@ -5,6 +5,7 @@
 -/
 import CC.Proofs.StateBridge
 import CC.Proofs.KCL
+import CC.Proofs.Bridge
 
 set_option linter.unusedSectionVars false
 
@@ -296,10 +297,23 @@ theorem containerCheck_ok_iff (a b c d : Nat × Nat) :
 
 /-! ### output rows -/
 
-/-- the quirk of `_row_for_potential`: an id that is not in the node map (the reference node,
-or ANY unknown id) yields a zero row instead of an error -/
+/-- `_row_for_potential` on the reference node: a zero row (the reference is never in the node map) -/
+theorem rowForPotential_reference (m : NSSM L K) (M : List (List K)) (w : Nat) :
+    m.rowForPotential m.net.zero M w = .ok (Mx.zeroVec w) := by
+  have h : idxOf? m.net.zero m.net.nodes = none :=
+    idxOf?_none_of_not_mem (fun hm => ((mem_nodes_iff m.net _).mp hm).2 rfl)
+  simp [NSSM.rowForPotential, h]
+
+/-- `_row_for_potential` on an unknown id (not in the node map, not the reference): `KeyError`
+(since fix f9f472e) -/
 theorem rowForPotential_unknown (m : NSSM L K) (node : L) (M : List (List K)) (w : Nat)
-    (h : idxOf? node m.net.nodes = none) : m.rowForPotential node M w = Mx.zeroVec w := by
+    (h : idxOf? node m.net.nodes = none) (hz : node ≠ m.net.zero) :
+    m.rowForPotential node M w = .error .keyError := by
+  simp [NSSM.rowForPotential, h, hz]
+
+/-- … and a mapped node gets its own row -/
+theorem rowForPotential_mapped (m : NSSM L K) (node : L) (M : List (List K)) (w k : Nat)
+    (h : idxOf? node m.net.nodes = some k) : m.rowForPotential node M w = .ok (M.getD k []) := by
   simp [NSSM.rowForPotential, h]
 
 /-! ### column selection: what the code does vs. what `sources` / the dictionaries promise -/
